@@ -30,6 +30,13 @@ func (c *c14) Plan(seed uint64, tier string, worker, workers, idx int) *Plan {
 	p.Sched = core.SchedSpec{Kind: []string{"random", "pct", "rtc"}[r.Intn(3)], D: r.Range(1, 3), Preempt: 50 + r.Intn(300), Horizon: 400}
 	universe := pickUniverse(r, r.Range(4, 8))
 	other := c14Limits[r.Intn(len(c14Limits))]
+	if r.Chance(1, 12) {
+		if r.Chance(1, 2) {
+			p.Limit0 = bigLimit(r)
+		} else {
+			other = bigLimit(r)
+		}
+	}
 	g := &extGen{r: r, universe: universe, limits: []uint32{p.Limit0, other}}
 	if r.Chance(1, 2) {
 		g.arrays = []int{r.Range(3, 8)}
@@ -40,6 +47,9 @@ func (c *c14) Plan(seed uint64, tier string, worker, workers, idx int) *Plan {
 	p.Slots = 6
 	template := r.Intn(24) // 0-2 crowd, 3-6 chain, else free histories
 	g.charsetNamesOn = template >= 7 && r.Chance(1, 3)
+	if template >= 7 && r.Chance(1, 4) {
+		g.setCollide()
+	}
 	slot := 0
 	battery := func(ops []Op, count int, withFaults bool) []Op {
 		for i := 0; i < count; i++ {
@@ -68,7 +78,7 @@ func (c *c14) Plan(seed uint64, tier string, worker, workers, idx int) *Plan {
 			if !all && !r.Chance(1, 3) {
 				continue
 			}
-			names := lookupNames(e)
+			names := g.lookupNames(e)
 			for _, nm := range names {
 				if all || r.Chance(1, 2) {
 					op := Op{Kind: "lookup", Name: nm, Ext: e}
@@ -80,7 +90,7 @@ func (c *c14) Plan(seed uint64, tier string, worker, workers, idx int) *Plan {
 				}
 			}
 		}
-		if nm := parents[2+r.Intn(len(parents)-2)].Name; r.Chance(1, 2) && !(g.charsetNamesOn && lib.IsCharsetName(nm)) {
+		if nm := parents[2+r.Intn(len(parents)-2)].Name; r.Chance(1, 2) {
 			ops = append(ops, Op{Kind: "lookup", Name: nm})
 		}
 		if r.Chance(1, 6) {
@@ -117,11 +127,11 @@ func (c *c14) Plan(seed uint64, tier string, worker, workers, idx int) *Plan {
 				ops = append(ops, Op{Kind: "detect", In: &in})
 				other := universe[r.Intn(len(universe))]
 				ops = append(ops, Op{Kind: "detect", In: &other})
-				if !lib.IsCharsetName(e.Mime) {
+				if g.mayLookup(e.Mime) {
 					ops = append(ops, Op{Kind: "lookup", Name: e.Mime, Ext: e})
 				}
 				old := g.made[r.Intn(len(g.made))]
-				if names := lookupNames(old); old.Mime != e.Mime && len(names) > 0 {
+				if names := g.lookupNames(old); old.Mime != e.Mime && len(names) > 0 {
 					ops = append(ops, Op{Kind: "lookup", Name: names[r.Intn(len(names))], Ext: old})
 				}
 			}
@@ -151,7 +161,7 @@ func (c *c14) Plan(seed uint64, tier string, worker, workers, idx int) *Plan {
 			if r.Chance(1, 2) {
 				ops = append(ops, Op{Kind: "reader", In: &in, Del: randDelivery(r, len(in.Bytes()), 0)})
 			}
-			if !lib.IsCharsetName(e.Mime) {
+			if g.mayLookup(e.Mime) {
 				ops = append(ops, Op{Kind: "lookup", Name: e.Mime, Ext: e})
 			}
 		}
@@ -173,7 +183,7 @@ func (c *c14) Plan(seed uint64, tier string, worker, workers, idx int) *Plan {
 			n0 := len(ops)
 			ops = lookups(ops, false)
 			// the extension just registered is always looked up by its type
-			if (len(ops) == n0 || r.Chance(1, 2)) && !lib.IsCharsetName(e.Mime) {
+			if (len(ops) == n0 || r.Chance(1, 2)) && g.mayLookup(e.Mime) {
 				ops = append(ops, Op{Kind: "lookup", Name: e.Mime, Ext: e})
 			}
 			ops = uses(ops)
